@@ -3,6 +3,7 @@ import GrafeoModel.Driver.C15
 import GrafeoModel.Driver.Tx
 import GrafeoModel.Driver.Rdf
 import GrafeoModel.Driver.Wal
+import GrafeoModel.Driver.Ops
 
 /-!
 `gdriver`: reads op lines `<stream> <op> <arg>*` on stdin, writes one line per op:
@@ -26,6 +27,10 @@ def dispatch (st : DState) (line : String) : DState × String :=
       | none => (st, "bad-op")
     else if stream == "wal" then
       match DriverWal.handle args with
+      | some o => (st, o.render)
+      | none => (st, "bad-op")
+    else if stream == "ops" then
+      match DriverOps.handle args with
       | some o => (st, o.render)
       | none => (st, "bad-op")
     else if stream == "tx" then
